@@ -28,7 +28,7 @@ FB = 'odl/solvers/nonsmooth/forward_backward.py'
 def check(ctx):
     rep = Report(
         'C12', ctx, 'other',
-        'Only four structural clauses of this numerical property are '
+        'Only five structural clauses of this numerical property are '
         'decided.  R1: on every returning path of '
         'BacktrackingLineSearch.__call__ (symbolic execution with forks on '
         'the decrease test) the last decision taken is exactly the '
@@ -42,7 +42,11 @@ def check(ctx):
         'names used as the two operands of one lincomb / difference denote '
         'different cells (a saved iterate is a copy).  R4: the power method'
         ' returns ||T u|| (or its square root on the normal arm) for a u '
-        'that is a normalised vector on every exit.',
+        'that is a normalised vector on every exit.  R5: in PDHG (plain and '
+        'with primal / dual acceleration, 2 and 3 iterations) every '
+        'application prox_{t f}(x - t L^* y) / prox_{s g^*}(y + s L xbar) '
+        'uses the proximal of the step size that stands in front of the '
+        'operator term, i.e. the proximals follow the updated tau / sigma.',
         ['CPython ast', 'vector-space axioms; functionals/operators '
          'uninterpreted', 'sqrt(c)**2 = c'],
         ['monotone decrease / exactness of CG / KKT residuals / power-'
